@@ -27,8 +27,12 @@ require (
 	github.com/decred/dcrd/lru v1.1.3 // indirect
 	github.com/golang/snappy v1.0.0 // indirect
 	github.com/kkdai/bstream v1.0.0 // indirect
+	github.com/pmezard/go-difflib v1.0.0 // indirect
+	github.com/stretchr/objx v0.5.2 // indirect
+	github.com/stretchr/testify v1.10.0 // indirect
 	github.com/syndtr/goleveldb v1.0.1-0.20210819022825-2ae1ddf74ef7 // indirect
 	golang.org/x/sys v0.35.0 // indirect
+	gopkg.in/yaml.v3 v3.0.1 // indirect
 )
 
 replace (
